@@ -27,6 +27,7 @@ type World struct {
 	pures     map[string]*PureFunc
 	ghosts    map[string]SType
 	ghostSrc  map[string]GhostField
+	ghostAlias map[string]string
 	axioms    []axiomDecl
 	monitors  []*MonitorDecl
 	heapPure  []string
@@ -52,7 +53,7 @@ func LoadWorld(repoDir string, specDir string, patterns []string) (*World, error
 		return nil, err
 	}
 	w := &World{repoDir: repoDir, pkgs: pkgs, typesPkgs: map[string]*types.Package{}, funcs: map[string]*ssa.Function{},
-		contracts: map[string]*FuncContract{}, pures: map[string]*PureFunc{}, ghosts: map[string]SType{}, ghostSrc: map[string]GhostField{},
+		contracts: map[string]*FuncContract{}, pures: map[string]*PureFunc{}, ghosts: map[string]SType{}, ghostSrc: map[string]GhostField{}, ghostAlias: map[string]string{},
 		cfByPkg: map[string]*ContractFile{}}
 	for _, p := range pkgs {
 		for _, e := range p.Errors {
@@ -166,6 +167,9 @@ func (w *World) addFile(cf *ContractFile) {
 			continue // the owning package is not part of this load: the ghost field cannot be referenced
 		}
 		w.ghostSrc[key] = g
+		if g.Alias != "" {
+			w.ghostAlias[key] = g.Alias
+		}
 	}
 }
 
